@@ -100,7 +100,7 @@ func c05Build(p *chk.Prog, r *chk.Report) {
 	x.Check("SetBalancer:ad:node-selected", st.Pos(), g.Dominated(st, selects), "", "an advertisement that does not select this node produces a route")
 	skip := loopSkipsWithout(g, adLoop, func(n ast.Node) bool { return n == st.Top }, g.GPat(false, "A.Nodes[RECV.myNode]", chk.H("A", adc)))
 	x.Check("SetBalancer:ad:every-selected-pair", adLoop.Pos(), !skip && !loopHasBreak(g, adLoop), "", "an (address, advertisement) pair that selects this node can be skipped")
-	x.Check("SetBalancer:ad:every-address", ipLoop.Pos(), !loopHasBreak(g, ipLoop) && !loopSkipsWithout(g, ipLoop, func(n ast.Node) bool { return n == ast.Node(adLoop.X) }, nil), "", "an address of the service can be skipped")
+	x.Check("SetBalancer:ad:every-address", ipLoop.Pos(), !loopHasBreak(g, ipLoop) && !loopSkipsWithout(g, ipLoop, func(n ast.Node) bool { return n == ast.Node(adLoop.X) }, chk.NoGuard), "", "an address of the service can be skipped")
 	// the literal
 	lit := ast.Expr(nil)
 	if id, ok := ast.Unparen(adVar).(*ast.Ident); ok {
